@@ -544,6 +544,15 @@ def u_probe_lifecycle(c):
     c.prove("after-exit/silent", st == "ok" and events == [])
     st, r = run(it, it.getattr(prb, "__enter__"), [])
     c.prove("after-exit/cannot-reopen", st == "raise" and events == [])
+    # --- the stream is completed exactly ONCE: a second deactivation (deactivate() inside the with-block followed by the end of the
+    # block, deactivate() called twice) completes nothing again -- a stage attached in between would otherwise publish a result for a
+    # period in which nothing was delivered -- removes no tooling a second time and does not fail
+    o3 = _observer(it, "o3", events)
+    it.call(make, [o3, None], {})
+    snap = (var.value, set(gp))
+    st, r = run(it, it.getattr(prb, "__exit__"), [None, None, None])
+    c.prove("second-deactivation/does-nothing-and-does-not-fail", st == "ok" and events == [] and var.value is snap[0] and set(gp) == snap[1],
+            note=f"{st} {r!r} {[e[:2] for e in events]}")
 
 
 sp_obs = z3.Function("sp_obs", z3.IntSort(), z3.IntSort())
@@ -607,6 +616,7 @@ def u_fanout(c):
             PR = it.get_global(P, "Probe")
             it.loopspecs = {(P + ":Probe.__exit__", 0): LoopSpec(ghost=lambda it_, env, i: DN.at(i), axioms=lambda it_, env, i: DN.axioms(i))}
             prox.cls = ClassV("Probe_sub", P, PR.node, [PR], PR.env)
+            it.get_global(P, "global_probes").add(prox)  # an ACTIVE probe (a second deactivation does nothing: unit Probe.lifecycle)
         else:
             prox.cls = ClassV("SP_sub", G, SP.node, [SP], SP.env)
         prox.cls.attrs["_exit"] = SummaryFn("_exit", lambda it_, a, k: exits.append(it_.ctx.log))
